@@ -1,0 +1,105 @@
+//! Verification hooks (cargo feature `verif-hooks`, off by default).
+//!
+//! Nothing in here changes what the library does: the hooks only make
+//! two sources of run-to-run nondeterminism reproducible (hash-map
+//! iteration order, content of freshly allocated IO buffers) and expose
+//! read-only views / forwarding wrappers of crate-private state to an
+//! external model-checking harness.
+use std::sync::atomic::{AtomicUsize, Ordering};
+
+/// byte written into every fresh `Qcow2IoBuf`
+pub const POISON: u8 = 0xA5;
+
+/// 0: ascending key order, anything else: descending key order
+pub static ORDER_SALT: AtomicUsize = AtomicUsize::new(0);
+
+pub fn set_order_salt(salt: usize) {
+    ORDER_SALT.store(salt, Ordering::Relaxed);
+}
+
+pub(crate) fn sort_by_key<T, K: PartialOrd, F: Fn(&T) -> &K>(v: &mut [T], f: F) {
+    let desc = ORDER_SALT.load(Ordering::Relaxed) != 0;
+    v.sort_by(|a, b| {
+        let o = f(a).partial_cmp(f(b)).unwrap_or(std::cmp::Ordering::Equal);
+        if desc {
+            o.reverse()
+        } else {
+            o
+        }
+    });
+}
+
+/// One cached metadata slice (L2 slice or refcount-block slice)
+#[derive(Debug, Clone, PartialEq, Eq, Hash)]
+pub struct VerifSlice {
+    pub key: usize,
+    pub offset: Option<u64>,
+    pub dirty: bool,
+    pub lru: usize,
+    pub users: usize,
+    /// None if the slice is locked for writing right now
+    pub data: Option<Vec<u8>>,
+}
+
+/// Snapshot of the in-RAM state of one `Qcow2Dev`
+#[derive(Debug, Clone, PartialEq, Eq, Hash, Default)]
+pub struct VerifState {
+    pub header: Vec<u8>,
+    pub l1: Vec<u8>,
+    pub l1_offset: Option<u64>,
+    pub l1_header_entries: u32,
+    pub l1_dirty_blocks: Vec<u32>,
+    pub reftable: Vec<u8>,
+    pub reftable_offset: Option<u64>,
+    pub reftable_dirty_blocks: Vec<u32>,
+    pub l2_slices: Vec<VerifSlice>,
+    pub l2_wmap_len: usize,
+    pub rb_slices: Vec<VerifSlice>,
+    pub rb_wmap_len: usize,
+    /// (host cluster index, zeroing started)
+    pub new_clusters: Vec<(u64, Option<bool>)>,
+    pub free_cluster_offset: u64,
+    pub need_flush: bool,
+    /// some lock could not be taken (only possible while an operation is in flight)
+    pub contended: bool,
+}
+
+/// Geometry fields of `Qcow2Info` that are crate-private
+#[derive(Debug, Clone, PartialEq, Eq)]
+pub struct VerifGeometry {
+    pub block_size_shift: u8,
+    pub cluster_shift: u8,
+    pub l2_index_shift: u8,
+    pub l2_slice_index_shift: u8,
+    pub l2_slice_bits: u8,
+    pub refcount_order: u8,
+    pub rb_slice_bits: u8,
+    pub rb_index_shift: u8,
+    pub rb_slice_index_shift: u8,
+    pub l2_slice_entries: u32,
+    pub rb_slice_entries: u32,
+    pub in_cluster_offset_mask: usize,
+    pub l2_index_mask: usize,
+    pub rb_index_mask: usize,
+    pub l2_cache_cnt: u32,
+    pub rb_cache_cnt: u32,
+    pub virtual_size: u64,
+    pub max_l1_entries: usize,
+    pub read_only: bool,
+    pub has_back_file: bool,
+    pub is_back_file: bool,
+}
+
+/// Index arithmetic of one host cluster offset
+#[derive(Debug, Clone, PartialEq, Eq)]
+pub struct VerifHostSplit {
+    pub rt_index: usize,
+    pub rb_index: usize,
+    pub rb_slice_index: usize,
+    pub rb_slice_key: usize,
+    pub rb_slice_off_in_table: usize,
+    pub rb_slice_host_start: u64,
+    pub rb_slice_host_end: u64,
+    pub rb_host_start: u64,
+    pub rb_host_end: u64,
+}
